@@ -44,7 +44,10 @@ def describe(rec: Dict[str, Any]) -> Dict[str, Any]:
     if "locs" in rec:
         out["observed_locs"] = [[k.get("i", core.dec_text(k["n"]) if "n" in k else k) for k in loc] for loc in rec["locs"]]
     if "results" in rec:
-        out["results"] = [(p["path"], p["out"], p["cls"], len(p["locs"])) for p in rec["results"]]
+        if rec.get("op") == "repeat":
+            out["results (first: fresh environment)"] = rec["results"][:8]
+        else:
+            out["results"] = [(p["path"], p["out"], p["cls"], len(p["locs"])) for p in rec["results"]]
     for k in ("reg", "lo", "hi", "s", "s2", "recompiles", "index", "line", "col", "maxdepth"):
         if k in rec:
             out[k] = rec[k]
